@@ -227,6 +227,7 @@ def _angvec(case):
     M = _inp(R, case)
 
     def judge(site, res):
+        nonlocal R
         if not c.true(site + "/tuple", isinstance(res, tuple) and len(res) == 2, "%s returned %r" % (site, res)):
             return
         t, v = res
@@ -259,6 +260,23 @@ def _angvec(case):
         ok, res = c.lib("UnitQuaternion.angvec", Q.angvec, unit=unit)
         if ok:
             judge("UnitQuaternion.angvec", res)
+    # the same rotation given by the other quaternion of the double cover (negative scalar part)
+    qn = -refs.q_of({"axis": case["axis"], "angle": th})
+    ok, Q = c.lib("UnitQuaternion(-q)/ctor", L.UnitQuaternion, [float(x) for x in qn])
+    if ok:
+        ok, res = c.lib("UnitQuaternion(-q).angvec", Q.angvec, unit=unit)
+        if ok:
+            judge("UnitQuaternion(-q).angvec", res)
+    # a quaternion built by the axis-angle constructor with any angle (many turns, negative): extraction still
+    # returns an angle in [0, pi] about a unit axis that rebuilds the same rotation
+    ok, Q = c.lib("UnitQuaternion.AngVec/ctor", L.UnitQuaternion.AngVec, ct, list(case["axis"]))
+    if ok:
+        ok, res = c.lib("UnitQuaternion.AngVec.angvec", Q.angvec, unit=unit)
+        if ok:
+            R_keep = R
+            R = Rc_ref
+            judge("UnitQuaternion.AngVec.angvec", res)
+            R = R_keep
     return c.out
 
 
